@@ -45,4 +45,163 @@ def forLoopMut {α : Type w} {σ : Type u} {ρ : Type v} (l : List α) (s : σ) 
     (k : List α → σ → ρ) : ρ :=
   forLoopMut.go body k [] l s
 
+/-! ### byte strings: `find` and slices with bounds that may be negative
+
+  `x.find(v)` answers an int that may be negative (-1: not found); the translation keeps such values as Lean `Int`
+  (arithmetic and comparisons on them are those of `Int`), and slices with such a bound follow Python: a negative
+  bound counts from the end, every bound is clamped to `0 .. len`. -/
+
+/-- `l.find(v)` for a byte string `l` and an octet `v`: the position of the first `v`, -1 when there is none -/
+def find (l : List Nat) (v : Nat) : Int :=
+  if l.idxOf v < l.length then Int.ofNat (l.idxOf v) else -1
+
+/-- `l.find(v, start)` for `start ≥ 0`: the position of the first `v` at or after `start`, -1 when there is none -/
+def findFrom (l : List Nat) (v : Nat) (start : Nat) : Int :=
+  if (l.drop start).idxOf v < (l.drop start).length then Int.ofNat (start + (l.drop start).idxOf v) else -1
+
+/-- a slice bound `i` of a sequence of `n` items, as a position `0 .. n` -/
+def sliceBound (n : Nat) (i : Int) : Nat :=
+  if i < 0 then n - i.natAbs else min i.toNat n
+
+/-- `l[i:]` -/
+def sliceFrom {α : Type w} (l : List α) (i : Int) : List α :=
+  l.drop (sliceBound l.length i)
+
+/-- `l[i:j]` -/
+def slice {α : Type w} (l : List α) (i j : Int) : List α :=
+  (l.take (sliceBound l.length j)).drop (sliceBound l.length i)
+
+/-! what Python answers on small inputs (checked by the kernel) -/
+example : find [1, 126, 3, 126] 126 = 1 := by decide
+example : find [1, 2] 126 = -1 := by decide
+example : find [] 0 = -1 := by decide
+example : findFrom [10, 1, 10, 2] 10 1 = 2 := by decide
+example : findFrom [10, 1, 10, 2] 10 0 = 0 := by decide
+example : findFrom [10, 1] 10 1 = -1 := by decide
+example : findFrom [10, 1] 10 5 = -1 := by decide
+example : sliceFrom [1, 2, 3, 4] (-1) = [4] := by decide
+example : sliceFrom [1, 2, 3, 4] (-9) = [1, 2, 3, 4] := by decide
+example : sliceFrom [1, 2, 3, 4] 9 = [] := by decide
+example : sliceFrom [1, 2, 3, 4] 2 = [3, 4] := by decide
+example : slice [1, 2, 3, 4] 1 3 = [2, 3] := by decide
+example : slice [1, 2, 3, 4] (-3) (-1) = [2, 3] := by decide
+example : slice [1, 2, 3, 4] 2 0 = [] := by decide
+example : slice [1, 2, 3, 4] 0 9 = [1, 2, 3, 4] := by decide
+example : slice [1, 2, 3, 4] (-9) 2 = [1, 2] := by decide
+
+/-- `bs.decode("ascii")` for a byte string of 7-bit octets: the code points are the octets.  (Python raises
+    UnicodeDecodeError otherwise; the translation is total, the theorems state the guard `isascii()`.) -/
+def decodeAscii (bs : List Nat) : List Nat := bs
+
+theorem find_of_mem {l : List Nat} {v : Nat} (h : v ∈ l) : find l v = Int.ofNat (l.idxOf v) := by
+  unfold find; rw [if_pos (List.idxOf_lt_length_of_mem h)]
+
+theorem find_of_not_mem {l : List Nat} {v : Nat} (h : v ∉ l) : find l v = -1 := by
+  unfold find
+  have : l.idxOf v = l.length := List.idxOf_eq_length h
+  rw [if_neg (by omega)]
+
+/-- what `find` answers, in terms of the longest prefix without `v` -/
+theorem find_eq_takeWhile (l : List Nat) (v : Nat) :
+    find l v = if v ∈ l then Int.ofNat (l.takeWhile (fun x => x != v)).length else -1 := by
+  split
+  · rename_i h
+    rw [find_of_mem h]
+    congr 1
+    induction l with
+    | nil => simp at h
+    | cons a t ih =>
+      by_cases hav : a = v
+      · subst hav; simp
+      · have hva : v ≠ a := fun e => hav e.symm
+        have ht : v ∈ t := by simpa [hva] using h
+        have hb : (a == v) = false := by simp [hav]
+        simp [List.idxOf_cons, hav, hb, ih ht]
+  · rename_i h; exact find_of_not_mem h
+
+theorem find_ge (l : List Nat) (v : Nat) : -1 ≤ find l v := by
+  unfold find; split <;> simp <;> omega
+
+theorem find_lt_length (l : List Nat) (v : Nat) : find l v < Int.ofNat l.length := by
+  unfold find; split
+  · simp; omega
+  · simp; omega
+
+theorem drop_takeWhile_length {α : Type w} (p : α → Bool) (l : List α) :
+    l.drop (l.takeWhile p).length = l.dropWhile p := by
+  induction l with
+  | nil => rfl
+  | cons a t ih =>
+    by_cases h : p a <;> simp [h, ih]
+
+theorem dropWhile_ne_eq_nil {l : List Nat} {v : Nat} (h : v ∉ l) : l.dropWhile (fun x => x != v) = [] := by
+  induction l with
+  | nil => rfl
+  | cons a t ih =>
+    have hav : a ≠ v := fun e => h (by simp [e])
+    have ht : v ∉ t := fun m => h (by simp [m])
+    simp [hav, ih ht]
+
+/-- the suffix from the first `v` on (nothing when there is none), as `trim_buffer_to_flag_or_end` computes it with
+    `find`: whichever of the tests `p == -1`, `p < 0`, `p > 0`, `p >= 0` the source uses -/
+theorem dropWhile_ne_eq_find (l : List Nat) (v : Nat) :
+    l.dropWhile (fun x => x != v) = if find l v < 0 then [] else l.drop (find l v).toNat := by
+  rw [find_eq_takeWhile]
+  by_cases h : v ∈ l
+  · simp only [h, if_true]
+    rw [if_neg (by simp)]
+    simp [drop_takeWhile_length]
+  · simp [h, dropWhile_ne_eq_nil h]
+
+theorem idxOf_eq_length_takeWhile (l : List Nat) (v : Nat) : l.idxOf v = (l.takeWhile (fun x => x != v)).length := by
+  induction l with
+  | nil => rfl
+  | cons a t ih =>
+    by_cases hav : a = v
+    · subst hav; simp
+    · have hb : (a == v) = false := by simp [hav]
+      simp [List.idxOf_cons, hav, hb, ih]
+
+/-- what `find` with a start position answers, in terms of the longest prefix without `v` of the octets from there on -/
+theorem findFrom_eq_takeWhile (l : List Nat) (v start : Nat) :
+    findFrom l v start =
+      if v ∈ l.drop start then Int.ofNat (start + ((l.drop start).takeWhile (fun x => x != v)).length) else -1 := by
+  unfold findFrom
+  by_cases h : v ∈ l.drop start
+  · rw [if_pos (List.idxOf_lt_length_of_mem h), if_pos h, idxOf_eq_length_takeWhile]
+  · rw [if_neg h, if_neg (by rw [List.idxOf_eq_length h]; omega)]
+
+/-- a slice between two positions that are not negative -/
+theorem slice_ofNat {α : Type w} (l : List α) (i j : Nat) : slice l (Int.ofNat i) (Int.ofNat j) = (l.take j).drop i := by
+  unfold slice sliceBound
+  have hi0 : ¬ Int.ofNat i < 0 := by simp
+  have hj0 : ¬ Int.ofNat j < 0 := by simp
+  rw [if_neg hi0, if_neg hj0]
+  simp only [Int.ofNat_eq_natCast, Int.toNat_natCast]
+  have ht : l.take (min j l.length) = l.take j := (List.take_eq_take_min).symm
+  rw [ht]
+  by_cases hi : i ≤ l.length
+  · rw [Nat.min_eq_left hi]
+  · rw [Nat.min_eq_right (by omega)]
+    rw [List.drop_eq_nil_of_le (by simp; omega), List.drop_eq_nil_of_le (by simp; omega)]
+
+theorem toNat_ofNat (n : Nat) : (Int.ofNat n).toNat = n := rfl
+
+theorem take_length_succ_append {α : Type w} (a : List α) (x : α) (r : List α) : (a ++ x :: r).take (a.length + 1) = a ++ [x] := by
+  induction a with
+  | nil => simp
+  | cons y t ih => simp [ih]
+
+theorem drop_length_succ_append {α : Type w} (a : List α) (x : α) (r : List α) : (a ++ x :: r).drop (a.length + 1) = r := by
+  induction a with
+  | nil => simp
+  | cons y t ih => simp [ih]
+
+theorem sliceFrom_of_nonneg {α : Type w} (l : List α) (i : Int) (h : 0 ≤ i) : sliceFrom l i = l.drop i.toNat := by
+  unfold sliceFrom sliceBound
+  rw [if_neg (by omega)]
+  by_cases hle : i.toNat ≤ l.length
+  · rw [Nat.min_eq_left hle]
+  · rw [Nat.min_eq_right (by omega), List.drop_length, List.drop_eq_nil_of_le (by omega)]
+
 end Amshan.GenRt
